@@ -39,8 +39,52 @@ class RecHelper:
         pass
 
 
+class DetSet:
+    """Handler collection with a fixed iteration order (registration order, or its reverse).
+
+    APIConnection keeps the subscribers of one message type in a `set`; CPython iterates a set of
+    callables in address order, which differs from run to run (and makes CrossHair see different
+    decision sequences for one path prefix).  Any order is a legal refinement of "unspecified", so the
+    harness pre-creates the per-type collections with this class: same add / discard / copy / iterate
+    surface, equality-based membership like a set, deterministic order."""
+
+    def __init__(self, items=(), reverse: bool = False) -> None:
+        self._l = list(items)
+        self._rev = reverse
+
+    def add(self, x) -> None:
+        for y in self._l:
+            if y is x or y == x:
+                return
+        self._l.append(x)
+
+    def discard(self, x) -> None:
+        for i, y in enumerate(self._l):
+            if y is x or y == x:
+                del self._l[i]
+                return
+
+    def copy(self) -> "DetSet":
+        return DetSet(self._l, self._rev)
+
+    def clear(self) -> None:
+        del self._l[:]
+
+    def __iter__(self):
+        return iter(self._l[::-1] if self._rev else list(self._l))
+
+    def __len__(self) -> int:
+        return len(self._l)
+
+    def __bool__(self) -> bool:
+        return bool(self._l)
+
+    def __contains__(self, x) -> bool:
+        return any(y is x or y == x for y in self._l)
+
+
 class ClientWorld:
-    def __init__(self) -> None:
+    def __init__(self, ordered_types=(), reverse: bool = False) -> None:
         self.loop = SimLoop().activate()
         with NoTracing():
             cli = CL.APIClient("10.0.0.1", 6053, None)
@@ -51,6 +95,8 @@ class ClientWorld:
             conn._set_connection_state(ConnectionState.CONNECTED)
             conn.api_version = APIVersion(1, 10)
             cli._connection = conn
+            for cls in ordered_types:
+                conn._message_handlers[cls] = DetSet(reverse=reverse)
         self.cli = cli
         self.conn = conn
         self.helper = helper
